@@ -17,6 +17,7 @@ def sh(cmd, **kw):
 
 
 def normalise_demo(text, pid):
+    text = text.replace(f"'/tmp/wt-{pid}/'", "os.environ.get('SEED_TREE', '/repo')")
     text = text.replace(f"'/tmp/wt-{pid}'", "os.environ.get('SEED_TREE', '/repo')")
     text = text.replace("'/tmp/seedtools'", "os.path.join(os.path.dirname(os.path.abspath(__file__)), '..', '_tools')")
     text = text.replace(f".startswith('/tmp/wt-{pid}')", ".startswith(os.environ.get('SEED_TREE', '/repo'))")
